@@ -21,7 +21,9 @@
 //! A second stream (`e2e`, see the section before `main`) drives the production data path around the
 //! reassembler - a real `EdgeTunServerState` and `EdgeTunClientState` after a WireGuard handshake, in both
 //! directions - with delivery schedules of the encrypted datagrams, and applies the same clauses to what the
-//! receiving side hands to the tunnel (keys `C17:e2e:*`).
+//! receiving side hands to the tunnel (keys `C17:e2e:*`).  A third stream (`e2e multi`, section before `main`)
+//! connects 2..3 clients with distinct identities to ONE server and sends client->server multi-frame packets at
+//! coinciding stream offsets; the clauses are judged per client identity (keys `C17:e2e:multi:*`).
 use std::{
     collections::{HashMap, HashSet, VecDeque},
     net::{IpAddr, Ipv4Addr, SocketAddr},
@@ -1566,6 +1568,850 @@ fn gen_e2e_exhaustive(rng: &mut Rng, frames_per_packet: &[usize], queues: usize,
     }
 }
 
+// ---------------------------------------------------------------------------------------------------------
+// e2e multi-client stream (client -> server only): ONE real EdgeTunServerState and 2..3 EdgeTunClientStates with
+// distinct static identities, tunnel addresses and network addresses, each after its own WireGuard handshake.
+// Every client's fragmenter counts its stream offsets from 0 (1 after the trigger packet), so clients that have
+// sent the same number of bytes send their next packets at COINCIDING stream offsets.  The property speaks about
+// "frames of that same packet" and "an honest sender": a packet belongs to the sender that fragmented it, so the
+// clauses are judged per client identity.  The identity is observed where the server itself states it: the
+// (identity, tunnel address, bytes) triple it submits to the inbound traffic policy right before it returns
+// WriteToTunnel (a recording allow-all policy).  Oracles (keys C17:e2e:multi:*):
+//  * :integrity      every packet handed to the tunnel under identity X is byte-identical to a packet client X sent
+//                    (a packet of another client, or a mix of fragments of several clients, is a violation);
+//  * :identity       a packet is handed over only as the result of a datagram of the client whose identity is
+//                    submitted to the policy, with that client's tunnel address, and the bytes returned are the
+//                    bytes submitted;
+//  * :at-most-once   a packet of client X is handed over at most once (copies of a datagram are dropped by the
+//                    transport, as in the single-client stream);
+//  * :not-delivered  (and :older-packets-cannot-reclaim, :single-frame) the counting argument of the single-client
+//                    stream with X's OWN packets only: packets of other senders are not "other packets" of X's
+//                    stream - each sender is promised Q slots (server.rs: one Defragmenter(8) per tunnel), so a
+//                    packet of X all of whose datagrams arrive while at most Q-1 other multi-frame packets OF X
+//                    can hold a slot must be handed over at the completing datagram, whatever other clients send;
+//  * :panic          no call panics.
+// Model correspondence (stream e2e-glue-multi): one Lean Defragmenter per client, fed that client's accepted
+// frames in arrival order; its emissions are compared with what the server handed over at those steps.
+
+struct AuthzMany(Vec<(x25519::PublicKey, IpAddr)>);
+impl EdgeTunAuthz<IpAddr> for AuthzMany {
+    fn is_authorized(&self, _now: Instant, identity: &x25519::PublicKey) -> Option<IpAddr> {
+        self.0.iter().find(|(k, _)| k == identity).map(|(_, a)| *a)
+    }
+}
+
+/// allow-all inbound policy that records what the server submits: (identity, tunnel address, packet)
+#[derive(Default)]
+struct RecPolicy(std::sync::Mutex<Vec<([u8; 32], IpAddr, Vec<u8>)>>);
+impl InboundTrafficPolicy<IpAddr> for RecPolicy {
+    fn check_inbound_policy(&self, id: &x25519::PublicKey, t: &IpAddr, pkt: &[u8]) -> bool {
+        if let Ok(mut g) = self.0.lock() {
+            g.push((*id.as_bytes(), *t, pkt.to_vec()));
+        }
+        true
+    }
+}
+
+const MULTI_MAX_PACKETS_PER_CLIENT: usize = 80;
+
+#[derive(Clone)]
+struct Multi {
+    kind: String,
+    mtu: u16,
+    seed: u64,
+    /// sizes[c]: sizes of the packets client c sends, in sending order (its k-th packet starts at stream offset
+    /// 1 + sum of the sizes before it: the trigger packet of the handshake has one byte)
+    sizes: Vec<Vec<usize>>,
+    /// delivery schedule at the server: (client, packet of that client, datagram of that packet)
+    order: Vec<(usize, usize, usize)>,
+}
+
+fn multi_payload(seed: u64, client: usize, idx: usize, size: usize) -> Vec<u8> {
+    let mut r = Rng::new(seed ^ ((client as u64 + 1) << 56) ^ ((idx as u64 + 1).wrapping_mul(0x9E37_79B9_7F4A_7C15)));
+    let mut d = r.bytes(size);
+    if let Some(b) = d.first_mut() {
+        *b = (client * MULTI_MAX_PACKETS_PER_CLIENT + idx) as u8; // pairwise different over all clients of a case
+    }
+    d
+}
+
+fn multi_line(c: &Multi) -> String {
+    format!(
+        "e2em {} {} {} {}",
+        c.mtu,
+        c.seed,
+        c.sizes.iter().map(|v| if v.is_empty() { "-".to_string() } else { v.iter().map(|s| s.to_string()).collect::<Vec<_>>().join(",") }).collect::<Vec<_>>().join("/"),
+        c.order.iter().map(|(c, p, f)| format!("{c}.{p}.{f}")).collect::<Vec<_>>().join(" ")
+    )
+}
+
+fn parse_multi_line(l: &str) -> Option<Multi> {
+    let mut it = l.split_whitespace();
+    if it.next()? != "e2em" {
+        return None;
+    }
+    let mtu = it.next()?.parse().ok()?;
+    let seed = it.next()?.parse().ok()?;
+    let sizes = it
+        .next()?
+        .split('/')
+        .map(|v| if v == "-" { Some(vec![]) } else { v.split(',').map(|x| x.parse().ok()).collect::<Option<Vec<usize>>>() })
+        .collect::<Option<Vec<Vec<usize>>>>()?;
+    if sizes.is_empty() || sizes.len() > 3 || sizes.iter().any(|v| v.len() > MULTI_MAX_PACKETS_PER_CLIENT) {
+        return None;
+    }
+    let order = it
+        .map(|t| {
+            let mut x = t.split('.');
+            let r = (x.next()?.parse().ok()?, x.next()?.parse().ok()?, x.next()?.parse().ok()?);
+            if x.next().is_some() { None } else { Some(r) }
+        })
+        .collect::<Option<Vec<(usize, usize, usize)>>>()?;
+    Some(Multi { kind: "corpus e2e multi".into(), mtu, seed, sizes, order })
+}
+
+struct Group {
+    srv: EdgeTunServerState<AuthzMany, RecPolicy, Net, IpAddr>,
+    policy: Arc<RecPolicy>,
+    clients: Vec<EdgeTunClientState<Net>>,
+    ids: Vec<[u8; 32]>,
+    taddrs: Vec<IpAddr>,
+    naddrs: Vec<Net>,
+    pool: EdgePacketBufPool,
+}
+
+impl Group {
+    fn new(mtu: u16, n: usize) -> Group {
+        let keypair = |seed: u8| {
+            let mut k = [0u8; 32];
+            k[1] = seed;
+            let s = x25519::StaticSecret::from(k);
+            let p = x25519::PublicKey::from(&s);
+            (s, p)
+        };
+        let pool = EdgePacketBufPool::new(16);
+        let (server_secret, server_public) = keypair(1);
+        let keys: Vec<_> = (0..n).map(|c| keypair(2 + c as u8)).collect();
+        let taddrs: Vec<IpAddr> = (0..n).map(|c| IpAddr::V4(Ipv4Addr::new(10, 0, 0, 1 + c as u8))).collect();
+        let naddrs: Vec<Net> = (0..n).map(|c| Net(SocketAddr::new(IpAddr::V4(Ipv4Addr::new(127, 0, 0, 1 + c as u8)), 51820 + c as u16))).collect();
+        let policy = Arc::new(RecPolicy::default());
+        let srv = EdgeTunServerState::new(
+            server_secret,
+            Arc::new(RateLimiter::new(&server_public, 100)),
+            Arc::new(AuthzMany(keys.iter().zip(&taddrs).map(|((_, p), t)| (*p, *t)).collect())),
+            policy.clone(),
+            pool.clone(),
+            mtu,
+            FragmentMetrics::new(&Default::default()),
+            DefragmentMetrics::new(&Default::default()),
+        );
+        let ids = keys.iter().map(|(_, p)| *p.as_bytes()).collect();
+        let clients = keys
+            .into_iter()
+            .map(|(secret, _)| {
+                EdgeTunClientState::new(
+                    pool.clone(),
+                    EdgeTunClientConfig { peer_static: server_public, static_secret: secret, rate_limit: 100, mtu, defrag_queue_counts: 8, persistent_keep_alive: None },
+                    FragmentMetrics::new(&Default::default()),
+                    DefragmentMetrics::new(&Default::default()),
+                )
+            })
+            .collect();
+        Group { srv, policy, clients, ids, taddrs, naddrs, pool }
+    }
+
+    fn packet(&self, payload: &[u8]) -> Packet {
+        if payload.len() > 60000 {
+            return Packet::from_bytes(bytes::BytesMut::from(payload));
+        }
+        let mut p = self.pool.get();
+        let buf = p.buf_mut();
+        buf.truncate(0);
+        buf.extend_from_slice(payload);
+        p
+    }
+
+    fn take_policy_log(&self) -> Vec<([u8; 32], IpAddr, Vec<u8>)> {
+        self.policy.0.lock().map(|mut g| std::mem::take(&mut *g)).unwrap_or_default()
+    }
+
+    /// handshake of client `c`; the trigger packet must be handed over once, under c's identity
+    fn handshake(&mut self, c: usize) -> Result<(), String> {
+        let addr = self.naddrs[c];
+        let mut cq = VecDeque::new();
+        let trig = self.packet(&TRIGGER);
+        self.clients[c].handle_outgoing_packet(trig, &mut cq);
+        let init = cq.pop_front().ok_or("client produced no handshake initiation")?;
+        let mut sq = VecDeque::new();
+        let r = self.srv.handle_incoming_packet(addr, Packet::from(init).into_bytes(), &mut sq);
+        if !matches!(r, TunnResult::Done) {
+            return Err(format!("server on handshake initiation: {r:?}"));
+        }
+        let resp = sq.pop_front().ok_or("server produced no handshake response")?;
+        let mut cq = VecDeque::new();
+        let r = self.clients[c].handle_incoming_packet(addr, Packet::from(resp).into_bytes(), &mut cq);
+        if !matches!(r, TunnResult::Done) {
+            return Err(format!("client on handshake response: {r:?}"));
+        }
+        self.take_policy_log();
+        let mut got = vec![];
+        for wg in cq {
+            let mut sq = VecDeque::new();
+            if let TunnResult::WriteToTunnel(p) = self.srv.handle_incoming_packet(addr, Packet::from(wg).into_bytes(), &mut sq) {
+                got.push(p.to_vec());
+            }
+        }
+        if got != vec![TRIGGER.to_vec()] {
+            return Err(format!("the packet that triggered the handshake was not handed to the server's tunnel exactly once ({} deliveries)", got.len()));
+        }
+        let log = self.take_policy_log();
+        if log.len() != 1 || log[0].0 != self.ids[c] || log[0].1 != self.taddrs[c] {
+            return Err("the trigger packet was not submitted to the inbound policy exactly once under the client's identity and tunnel address".into());
+        }
+        Ok(())
+    }
+
+    fn send(&mut self, c: usize, data: &[u8]) -> Result<Vec<Vec<u8>>, String> {
+        let pkt = self.packet(data);
+        let mut q: VecDeque<WgKind> = VecDeque::new();
+        self.clients[c].handle_outgoing_packet(pkt, &mut q);
+        let mut out = vec![];
+        for wg in q {
+            if !matches!(wg, WgKind::Data(_)) {
+                return Err("sender produced a WireGuard message that is not a data message".into());
+            }
+            out.push(Packet::from(wg).into_bytes().to_vec());
+        }
+        Ok(out)
+    }
+
+    fn deliver(&mut self, c: usize, datagram: &[u8]) -> Rx {
+        let pkt = Packet::from_bytes(bytes::BytesMut::from(datagram));
+        let mut q = VecDeque::new();
+        match self.srv.handle_incoming_packet(self.naddrs[c], pkt, &mut q) {
+            TunnResult::WriteToTunnel(p) => Rx::Pkt(p.to_vec()),
+            TunnResult::Done => Rx::Done,
+            TunnResult::Err(e) => Rx::Err(format!("{e:?}")),
+            TunnResult::WriteToNetwork(_) => Rx::Other("WriteToNetwork".into()),
+        }
+    }
+}
+
+#[derive(Default)]
+struct MultiOut {
+    spec: Vec<(String, String)>,
+    disagree: Option<(usize, String, String)>,
+    labels: Vec<String>,
+    /// per client, per packet
+    frames_per_packet: Vec<Vec<usize>>,
+    /// per client: stream offset of every packet (1 + bytes sent before)
+    offsets: Vec<Vec<u64>>,
+    handed_over: usize,
+    handed_over_reassembled: usize,
+    complete_not_handed_over: usize,
+    dup_dropped: usize,
+    claims: usize,
+    claims_older_only: usize,
+    claims_other_client_interleaved: usize,
+    claims_other_client_same_offset: usize,
+    singles_claimed: usize,
+    model_frames: usize,
+    /// multi-frame packets of different clients at the same stream offset with a datagram delivered
+    coinciding: usize,
+}
+
+fn run_multi(c: &Multi, lean: &mut Option<&mut Lean>, server_q: Option<usize>) -> MultiOut {
+    const K: &str = "C17:e2e:multi";
+    let mut out = MultiOut::default();
+    let nc = c.sizes.len();
+    let mut g = match catch(|| Group::new(c.mtu, nc)) {
+        Ok(g) => g,
+        Err(m) => {
+            out.spec.push((format!("{K}:panic"), format!("constructing the server and {nc} clients (mtu {}) panicked: {m}", c.mtu)));
+            return out;
+        }
+    };
+    for cl in 0..nc {
+        match catch(|| g.handshake(cl)) {
+            Ok(Ok(())) => {}
+            Ok(Err(m)) => {
+                out.spec.push((format!("{K}:handshake"), format!("client {cl} of {nc}: {m}")));
+                return out;
+            }
+            Err(m) => {
+                out.spec.push((format!("{K}:panic"), format!("handshake of client {cl} of {nc} panicked: {m}")));
+                return out;
+            }
+        }
+    }
+    // every client fragments and encrypts all its packets; plaintext frames recomputed per client
+    let mut sent: Vec<Vec<Vec<u8>>> = vec![vec![]; nc];
+    let mut grams: Vec<Vec<Vec<Vec<u8>>>> = vec![vec![]; nc];
+    let mut frames: Vec<Vec<Vec<Vec<u8>>>> = vec![vec![]; nc];
+    let mut trigger_frames: Vec<Vec<u8>> = vec![vec![]; nc];
+    let mut shape_ok = true;
+    for cl in 0..nc {
+        let mut shadow = Fragmenter::new_unobserved(c.mtu as usize);
+        let _ = shadow.send(&TRIGGER, |f| trigger_frames[cl] = f.to_vec());
+        let mut off = TRIGGER.len() as u64;
+        let mut offs = vec![];
+        let mut nfs = vec![];
+        for (i, size) in c.sizes[cl].iter().enumerate() {
+            let data = multi_payload(c.seed, cl, i, *size);
+            let gr = match catch(|| g.send(cl, &data)) {
+                Ok(Ok(x)) => x,
+                Ok(Err(m)) => {
+                    out.spec.push((format!("{K}:sender-output"), format!("client {cl} packet #{i} ({size} B): {m}")));
+                    shape_ok = false;
+                    vec![]
+                }
+                Err(m) => {
+                    out.spec.push((format!("{K}:panic"), format!("client {cl}: handle_outgoing_packet panicked on packet #{i} ({size} B, mtu {}): {m}", c.mtu)));
+                    shape_ok = false;
+                    vec![]
+                }
+            };
+            let mut fs: Vec<Vec<u8>> = vec![];
+            let _ = shadow.send(&data, |f| fs.push(f.to_vec()));
+            if gr.len() != fs.len() || gr.iter().zip(&fs).any(|(d, f)| d.len() != f.len() + WG_OVERHEAD) {
+                if shape_ok {
+                    out.spec.push((format!("{K}:sender-shape"), format!("client {cl} packet #{i} ({size} B, mtu {}): the sender produced {} datagrams, a Fragmenter of that MTU yields {} frames", c.mtu, gr.len(), fs.len())));
+                }
+                shape_ok = false;
+            }
+            offs.push(off);
+            if !gr.is_empty() {
+                off = off.wrapping_add(*size as u64);
+            }
+            nfs.push(gr.len());
+            sent[cl].push(data);
+            grams[cl].push(gr);
+            frames[cl].push(fs);
+        }
+        out.offsets.push(offs);
+        out.frames_per_packet.push(nfs);
+        let total: usize = grams[cl].iter().map(|x| x.len()).sum();
+        if total + 2 >= WG_REORDER_WINDOW {
+            out.spec.push((format!("{K}:harness-limit"), format!("client {cl}: {total} datagrams in one session: beyond the transport's reorder window")));
+            return out;
+        }
+    }
+    // ---- delivery ----
+    let mut seen: HashSet<(usize, usize, usize)> = HashSet::new();
+    // accepted deliveries (first copies) per (client, packet): (step, datagram index)
+    let mut acc: Vec<Vec<Vec<(usize, usize)>>> = c.sizes.iter().map(|v| vec![vec![]; v.len()]).collect();
+    let mut handed: Vec<Vec<Vec<usize>>> = c.sizes.iter().map(|v| vec![vec![]; v.len()]).collect();
+    // per step: (client, packet, datagram, first copy, what was handed over)
+    let mut steps: Vec<Option<(usize, usize, usize, bool, Option<Vec<u8>>)>> = vec![];
+    g.take_policy_log();
+    for (k, (cl, p, f)) in c.order.iter().enumerate() {
+        let Some(d) = grams.get(*cl).and_then(|x| x.get(*p)).and_then(|x| x.get(*f)) else {
+            out.labels.push("skipped (no such datagram)".into());
+            steps.push(None);
+            continue;
+        };
+        let (cl, p, f) = (*cl, *p, *f);
+        let first = seen.insert((cl, p, f));
+        let r = catch(|| g.deliver(cl, d));
+        let log = g.take_policy_log();
+        let mut got: Option<Vec<u8>> = None;
+        let who = format!("client {cl} datagram {p}.{f}");
+        let label = match r {
+            Err(m) => {
+                out.spec.push((format!("{K}:panic"), format!("handle_incoming_packet panicked at step #{k} ({who}): {m}")));
+                "panic".to_string()
+            }
+            Ok(Rx::Pkt(b)) => {
+                got = Some(b);
+                String::new()
+            }
+            Ok(Rx::Done) => if first { "done".into() } else { "copy: done".into() },
+            Ok(Rx::Err(e)) => {
+                if first {
+                    out.spec.push((format!("{K}:transport-rejected"), format!("step #{k}: the first copy of {who} was rejected by the transport ({e}); the oracle assumes only exact copies are dropped")));
+                }
+                if first { format!("err {e}") } else { format!("copy: err {e}") }
+            }
+            Ok(Rx::Other(e)) => {
+                out.spec.push((format!("{K}:unexpected-result"), format!("step #{k} ({who}): {e}")));
+                e
+            }
+        };
+        if first {
+            acc[cl][p].push((k, f));
+        } else {
+            out.dup_dropped += 1;
+        }
+        // identity under which the server handed the packet over = what it told the policy
+        let mut ident = cl;
+        match (&got, log.as_slice()) {
+            (None, []) => {}
+            (Some(b), [(id, t, pb)]) => {
+                match g.ids.iter().position(|x| x == id) {
+                    Some(x) => ident = x,
+                    None => out.spec.push((format!("{K}:identity"), format!("step #{k} ({who}): packet submitted to the inbound policy under an identity that is none of the {nc} clients"))),
+                }
+                if ident != cl || *t != g.taddrs[cl] || pb != b {
+                    out.spec.push((format!("{K}:identity"), format!("step #{k}: a datagram of client {cl} (tunnel address {}) made the server hand over {} B; the inbound policy was asked about {} B under the identity of client {ident}, tunnel address {t}", g.taddrs[cl], b.len(), pb.len())));
+                }
+            }
+            (gp, lg) => {
+                out.spec.push((format!("{K}:identity"), format!("step #{k} ({who}): {} packet handed to the tunnel, {} submitted to the inbound policy", if gp.is_some() { "one" } else { "no" }, lg.len())));
+            }
+        }
+        let label = if let Some(b) = &got {
+            out.handed_over += 1;
+            match sent[ident].iter().position(|s| s == b) {
+                Some(i) => {
+                    handed[ident][i].push(k);
+                    if grams[ident][i].len() > 1 {
+                        out.handed_over_reassembled += 1;
+                    }
+                    if handed[ident][i].len() > 1 {
+                        out.spec.push((format!("{K}:at-most-once"), format!("packet #{i} of client {ident} ({} B, {} datagrams) handed to the tunnel {} times (steps {:?})", b.len(), grams[ident][i].len(), handed[ident][i].len(), handed[ident][i])));
+                    }
+                    if !first {
+                        out.spec.push((format!("{K}:at-most-once"), format!("step #{k}: a second copy of {who} made the server hand packet #{i} of client {ident} to the tunnel")));
+                    }
+                    format!("{}client {ident} pkt #{i}", if first { "" } else { "copy: " })
+                }
+                None => {
+                    // say where the bytes come from: the longest common prefix / suffix with any client's packet
+                    let mut best_pre = (0usize, 0usize, 0usize);
+                    let mut best_suf = (0usize, 0usize, 0usize);
+                    let mut whole: Option<(usize, usize)> = None;
+                    for (x, ps) in sent.iter().enumerate() {
+                        for (j, s) in ps.iter().enumerate() {
+                            if s == b {
+                                whole = Some((x, j));
+                            }
+                            let pre = s.iter().zip(b.iter()).take_while(|(a, b)| a == b).count();
+                            let suf = s.iter().rev().zip(b.iter().rev()).take_while(|(a, b)| a == b).count();
+                            if pre > best_pre.0 {
+                                best_pre = (pre, x, j);
+                            }
+                            if suf > best_suf.0 {
+                                best_suf = (suf, x, j);
+                            }
+                        }
+                    }
+                    let origin = match whole {
+                        Some((x, j)) => format!("they are packet #{j} of client {x}"),
+                        None => format!(
+                            "they are no packet any client sent: the first {} B are the first bytes of packet #{} of client {}, the last {} B are the last bytes of packet #{} of client {}",
+                            best_pre.0, best_pre.2, best_pre.1, best_suf.0, best_suf.2, best_suf.1
+                        ),
+                    };
+                    out.spec.push((
+                        format!("{K}:integrity"),
+                        format!("step #{k} ({who}, stream offset {}): {} B handed to the tunnel under the identity of client {ident} are not a packet client {ident} sent; {origin}", out.offsets[cl][p], b.len()),
+                    ));
+                    format!("client {ident} pkt UNKNOWN")
+                }
+            }
+        } else {
+            label
+        };
+        steps.push(Some((cl, p, f, first, got)));
+        out.labels.push(label);
+    }
+    // ---- coverage: coinciding stream offsets ----
+    for x in 0..nc {
+        for y in x + 1..nc {
+            for (i, ox) in out.offsets[x].iter().enumerate() {
+                for (j, oy) in out.offsets[y].iter().enumerate() {
+                    if ox == oy && grams[x][i].len() > 1 && grams[y][j].len() > 1 && !acc[x][i].is_empty() && !acc[y][j].is_empty() {
+                        out.coinciding += 1;
+                    }
+                }
+            }
+        }
+    }
+    // ---- liveness, per client: only the client's own packets compete for its Q slots ----
+    for x in 0..nc {
+        let n = sent[x].len();
+        for i in 0..n {
+            let nf = grams[x][i].len();
+            if nf == 0 || acc[x][i].is_empty() {
+                continue;
+            }
+            if nf == 1 {
+                out.singles_claimed += 1;
+                let t = acc[x][i][0].0;
+                if !handed[x][i].contains(&t) {
+                    out.spec.push((format!("{K}:not-delivered:single-frame"), format!("packet #{i} of client {x} ({} B, one datagram) arrived at step #{t} and was not handed to the tunnel there ({})", sent[x][i].len(), out.labels[t])));
+                }
+                continue;
+            }
+            if acc[x][i].len() < nf {
+                continue;
+            }
+            let t0 = acc[x][i][0].0;
+            let t1 = acc[x][i].last().unwrap().0;
+            if !handed[x][i].contains(&t1) {
+                out.complete_not_handed_over += 1;
+            }
+            let Some(q) = server_q else { continue };
+            if q == 0 {
+                continue;
+            }
+            let mut all = 0usize;
+            let mut newer = 0usize;
+            for j in 0..n {
+                if j == i || grams[x][j].len() < 2 {
+                    continue;
+                }
+                let Some(first_j) = acc[x][j].first().map(|v| v.0) else { continue };
+                if first_j > t1 {
+                    continue;
+                }
+                if handed[x][j].iter().any(|k| *k < t0) {
+                    continue;
+                }
+                all += 1;
+                if j > i {
+                    newer += 1;
+                }
+            }
+            let key = if all + 1 <= q {
+                format!("{K}:not-delivered")
+            } else if newer + 1 <= q {
+                out.claims_older_only += 1;
+                format!("{K}:not-delivered:older-packets-cannot-reclaim")
+            } else {
+                continue;
+            };
+            out.claims += 1;
+            let others_between = steps.iter().enumerate().filter(|(k, s)| *k > t0 && *k < t1 && s.as_ref().map_or(false, |s| s.0 != x && s.3)).count();
+            if others_between > 0 {
+                out.claims_other_client_interleaved += 1;
+            }
+            let same_off: Vec<String> = (0..nc)
+                .filter(|y| *y != x)
+                .flat_map(|y| out.offsets[y].iter().enumerate().filter(|(j, o)| **o == out.offsets[x][i] && grams[y][*j].len() > 1 && acc[y][*j].iter().any(|(k, _)| *k <= t1)).map(move |(j, _)| format!("client {y} #{j}")).collect::<Vec<_>>())
+                .collect();
+            if !same_off.is_empty() {
+                out.claims_other_client_same_offset += 1;
+            }
+            if !handed[x][i].contains(&t1) {
+                out.spec.push((
+                    key,
+                    format!(
+                        "{q} reassembly slots per tunnel: packet #{i} of client {x} ({} B, {nf} datagrams, stream offset {}): first datagram at step #{t0}, all {nf} delivered by step #{t1}; {all} other packets of client {x} can hold a slot up to then, {newer} of them sent after it; it was not handed to the tunnel at step #{t1} (result there: {}; handed over at steps {:?}); datagrams of other clients delivered in between: {others_between}; multi-frame packets of other clients at the same stream offset delivered up to then: {}",
+                        sent[x][i].len(), out.offsets[x][i], out.labels[t1], handed[x][i], if same_off.is_empty() { "none".to_string() } else { same_off.join(", ") }
+                    ),
+                ));
+            }
+        }
+    }
+    // ---- model: one Defragmenter per tunnel ----
+    if let (true, Some(q), Some(l)) = (shape_ok, server_q, lean.as_mut()) {
+        'clients: for x in 0..nc {
+            l.ask(&format!("new {q}"));
+            let mo = l.ask(&format!("recv {}", hex(&trigger_frames[x])));
+            if l.differs(&mo, &format!("pkt 0 {}", hex(&TRIGGER))) {
+                out.disagree = Some((0, format!("client {x}: trigger packet handed to the tunnel"), mo));
+                break;
+            }
+            for (k, s) in steps.iter().enumerate() {
+                let Some((cl, p, f, first, got)) = s else { continue };
+                if *cl != x || !*first {
+                    continue;
+                }
+                let mo = l.ask(&format!("recv {}", hex(&frames[x][*p][*f])));
+                out.model_frames += 1;
+                let model_pkt = mo.strip_prefix("pkt ").and_then(|r| r.split_once(' ')).map(|(_, h)| h.to_string());
+                let agrees = match (&model_pkt, got) {
+                    (Some(h), Some(b)) => *h == hex(b),
+                    (None, None) => mo == "none" || mo.starts_with("err "),
+                    _ => false,
+                };
+                if l.enabled && !agrees {
+                    let cut = |s: &str| if s.len() > 120 { format!("{}…", &s[..120]) } else { s.to_string() };
+                    out.disagree = Some((k, cut(&out.labels[k]), cut(&mo)));
+                    break 'clients;
+                }
+            }
+        }
+    }
+    out
+}
+
+fn multi_json(c: &Multi, o: &MultiOut) -> serde_json::Value {
+    json!({
+        "stream": "e2e multi-client", "kind": c.kind, "direction": "client->server (one server, one tunnel per client)",
+        "clients": c.sizes.len(), "mtu": c.mtu, "packet_sizes per client": c.sizes, "datagrams_per_packet per client": o.frames_per_packet,
+        "stream_offsets per client": o.offsets,
+        "schedule (client.packet.datagram)": c.order.iter().map(|(c, p, f)| format!("{c}.{p}.{f}")).collect::<Vec<_>>().join(" "),
+        "results": o.labels, "line": multi_line(c),
+    })
+}
+
+/// delta-debugging over the delivery schedule, then trailing packets of every client, then trailing clients
+fn shrink_multi(c: &Multi, server_q: Option<usize>, key: &str) -> Multi {
+    let fails = |x: &Multi| run_multi(x, &mut None, server_q).spec.iter().any(|(k, _)| k == key);
+    let mut cur = c.clone();
+    let mut chunk = (cur.order.len() / 2).max(1);
+    let mut budget = 120;
+    while budget > 0 {
+        let mut progressed = false;
+        let mut i = 0;
+        while i < cur.order.len() && budget > 0 {
+            let mut cand = cur.clone();
+            let end = (i + chunk).min(cand.order.len());
+            cand.order.drain(i..end);
+            budget -= 1;
+            if fails(&cand) {
+                cur = cand;
+                progressed = true;
+            } else {
+                i += chunk;
+            }
+        }
+        if chunk == 1 && !progressed {
+            break;
+        }
+        chunk = (chunk / 2).max(1);
+    }
+    let mut cand = cur.clone();
+    for (cl, v) in cand.sizes.iter_mut().enumerate() {
+        let used = cur.order.iter().filter(|(x, _, _)| *x == cl).map(|(_, p, _)| p + 1).max().unwrap_or(0);
+        v.truncate(used.min(v.len()));
+    }
+    while cand.sizes.len() > 1 && cand.sizes.last().map_or(false, |v| v.is_empty()) {
+        cand.sizes.pop();
+    }
+    if fails(&cand) {
+        cur = cand;
+    }
+    cur
+}
+
+fn gen_multi(rng: &mut Rng, server_q: Option<usize>) -> Multi {
+    let q = server_q.unwrap_or(8).max(1);
+    let nc = if rng.chance(3, 5) { 2 } else { 3 };
+    let mtu = if rng.chance(4, 5) { *rng.pick(&[MIN_MTU, MIN_MTU, 300, 576, 1280, 1420, 1500]) as u16 } else { e2e_mtu(rng) };
+    let p = (mtu as usize).clamp(MIN_MTU, MAX_MTU) - HDR;
+    let seed = rng.next();
+    let mode = rng.below(8);
+    // packets are sent in rounds: in a round every client sends one packet.  Mostly the sizes of a round are equal
+    // for all clients, so the stream offsets of the next round coincide as well.
+    let rounds = match mode {
+        6 => q + rng.below(3) as usize,
+        7 => rng.range(2, q as u64) as usize,
+        _ => rng.range(1, 4) as usize,
+    };
+    let mut sizes: Vec<Vec<usize>> = vec![vec![]; nc];
+    for _ in 0..rounds {
+        let multi = mode >= 6 || rng.chance(5, 6);
+        let base = if mode >= 6 { p + 1 + rng.below(2 * p as u64) as usize } else { e2e_size(rng, p, multi, false).clamp(1, MAX_PACKET_SIZE) };
+        let aligned = rng.chance(4, 5);
+        for v in sizes.iter_mut() {
+            let s = if aligned {
+                base
+            } else {
+                match rng.below(3) {
+                    0 => base,
+                    // same stream offset now, other length / other number of frames; later offsets diverge
+                    1 => (base + p).min(MAX_PACKET_SIZE),
+                    _ => e2e_size(rng, p, true, false).clamp(1, MAX_PACKET_SIZE),
+                }
+            };
+            v.push(s);
+        }
+    }
+    // a client may stop early
+    if rng.chance(1, 6) {
+        let cl = rng.below(nc as u64) as usize;
+        let keep = rng.range(1, rounds as u64) as usize;
+        sizes[cl].truncate(keep);
+    }
+    let fr = |cl: usize, i: usize| -> Vec<(usize, usize, usize)> { (0..e2e_nframes(sizes[cl][i], mtu)).map(|f| (cl, i, f)).collect() };
+    let mut order: Vec<(usize, usize, usize)> = vec![];
+    let add_copies = |rng: &mut Rng, w: &mut Vec<(usize, usize, usize)>, den: u64| {
+        for k in 0..w.len() {
+            if rng.chance(1, den) {
+                let pos = rng.range(0, w.len() as u64) as usize;
+                let d = w[k];
+                w.insert(pos, d);
+            }
+        }
+    };
+    let kind;
+    match mode {
+        // round by round, client after client, every packet complete and in order
+        0 => {
+            for r in 0..rounds {
+                let mut cls: Vec<usize> = (0..nc).filter(|cl| r < sizes[*cl].len()).collect();
+                if rng.chance(1, 2) {
+                    rng.shuffle(&mut cls);
+                }
+                for cl in cls {
+                    order.extend(fr(cl, r));
+                }
+            }
+            kind = "e2e multi sequential";
+        }
+        // the same, but in every round one client's packet loses its LAST datagram (sometimes another one)
+        1 => {
+            for r in 0..rounds {
+                let mut cls: Vec<usize> = (0..nc).filter(|cl| r < sizes[*cl].len()).collect();
+                if rng.chance(1, 2) {
+                    rng.shuffle(&mut cls);
+                }
+                let loser = *rng.pick(&cls);
+                for cl in cls {
+                    let mut fs = fr(cl, r);
+                    if cl == loser && fs.len() > 1 {
+                        if rng.chance(3, 4) {
+                            fs.pop();
+                        } else {
+                            fs.remove(rng.below(fs.len() as u64) as usize);
+                        }
+                    }
+                    order.extend(fs);
+                }
+            }
+            kind = "e2e multi sequential, last datagram of one client's packet lost";
+        }
+        // datagram k of every client, then datagram k+1 of every client, ...
+        2 => {
+            for r in 0..rounds {
+                let cls: Vec<usize> = (0..nc).filter(|cl| r < sizes[*cl].len()).collect();
+                let longest = cls.iter().map(|cl| e2e_nframes(sizes[*cl][r], mtu)).max().unwrap_or(0);
+                for f in 0..longest {
+                    for cl in &cls {
+                        if f < e2e_nframes(sizes[*cl][r], mtu) {
+                            order.push((*cl, r, f));
+                        }
+                    }
+                }
+            }
+            kind = "e2e multi interleaved round-robin";
+        }
+        // every round shuffled (+ copies, + loss)
+        3 | 4 => {
+            for r in 0..rounds {
+                let mut w: Vec<(usize, usize, usize)> = vec![];
+                for cl in (0..nc).filter(|cl| r < sizes[*cl].len()) {
+                    let mut fs = fr(cl, r);
+                    if mode == 4 && fs.len() > 1 && rng.chance(1, 5) {
+                        if rng.chance(1, 2) {
+                            fs.pop();
+                        } else {
+                            fs.remove(rng.below(fs.len() as u64) as usize);
+                        }
+                    }
+                    w.extend(fs);
+                }
+                rng.shuffle(&mut w);
+                if mode == 4 {
+                    add_copies(rng, &mut w, 4);
+                }
+                order.extend(w);
+            }
+            kind = if mode == 3 { "e2e multi shuffled per round" } else { "e2e multi shuffled per round+copies+loss" };
+        }
+        // network model: per-client path delay, per-datagram jitter, loss, copies
+        5 => {
+            let mut timed: Vec<(u64, (usize, usize, usize))> = vec![];
+            for cl in 0..nc {
+                let path = rng.below(40);
+                let mut t = path;
+                for i in 0..sizes[cl].len() {
+                    for d in fr(cl, i) {
+                        t += 10;
+                        if rng.chance(1, 10) {
+                            continue;
+                        }
+                        let delay = match rng.below(6) {
+                            0 => rng.below(300),
+                            1 => rng.below(60),
+                            _ => rng.below(15),
+                        };
+                        timed.push((t + delay, d));
+                        if rng.chance(1, 8) {
+                            timed.push((t + delay + rng.below(200), d));
+                        }
+                    }
+                }
+            }
+            timed.sort();
+            order = timed.into_iter().map(|(_, d)| d).collect();
+            kind = "e2e multi network model (delay/loss/copies)";
+        }
+        // every client has Q (sometimes Q+1, Q+2) multi-frame packets in flight at once: datagram k of every packet
+        // of every client, then datagram k+1 ...
+        6 => {
+            let longest = (0..nc).flat_map(|cl| sizes[cl].iter().map(|s| e2e_nframes(*s, mtu))).max().unwrap_or(0);
+            for f in 0..longest {
+                for i in 0..rounds {
+                    for cl in 0..nc {
+                        if i < sizes[cl].len() && f < e2e_nframes(sizes[cl][i], mtu) {
+                            order.push((cl, i, f));
+                        }
+                    }
+                }
+            }
+            kind = "e2e multi every client fills its slots, round-robin";
+        }
+        // up to Q packets per client, everything shuffled (+ copies)
+        _ => {
+            for cl in 0..nc {
+                for i in 0..sizes[cl].len() {
+                    order.extend(fr(cl, i));
+                }
+            }
+            rng.shuffle(&mut order);
+            if rng.chance(1, 2) {
+                add_copies(rng, &mut order, 6);
+            }
+            kind = "e2e multi up to Q packets per client, all shuffled";
+        }
+    }
+    // stay well inside the transport's reorder window (per session)
+    for cl in 0..nc {
+        let mut total = 0usize;
+        for s in sizes[cl].iter_mut() {
+            if total + e2e_nframes(*s, mtu) > E2E_MAX_DATAGRAMS {
+                *s = p + 1;
+            }
+            total += e2e_nframes(*s, mtu);
+        }
+    }
+    order.retain(|(cl, i, f)| *f < e2e_nframes(sizes[*cl][*i], mtu));
+    Multi { kind: kind.into(), mtu, seed, sizes, order }
+}
+
+/// every delivery order of all datagrams of one small multi-frame packet per client, all at the same stream offset
+/// (minimum MTU); with `drop_one`, additionally every order of all datagrams but one
+fn gen_multi_exhaustive(rng: &mut Rng, frames_per_client: &[usize], drop_one: bool, out: &mut Vec<Multi>) {
+    let p = MIN_MTU - HDR;
+    let sizes: Vec<Vec<usize>> = frames_per_client.iter().map(|n| vec![(n - 1) * p + rng.range(1, p as u64) as usize]).collect();
+    let mut all: Vec<(usize, usize, usize)> = vec![];
+    for (cl, n) in frames_per_client.iter().enumerate() {
+        all.extend((0..*n).map(|f| (cl, 0, f)));
+    }
+    let seed = rng.next();
+    let mut sets: Vec<Vec<(usize, usize, usize)>> = vec![all.clone()];
+    if drop_one {
+        for k in 0..all.len() {
+            let mut s = all.clone();
+            s.remove(k);
+            sets.push(s);
+        }
+    }
+    for set in sets {
+        let mut perm: Vec<usize> = (0..set.len()).collect();
+        loop {
+            out.push(Multi { kind: "e2e multi exhaustive".into(), mtu: MIN_MTU as u16, seed, sizes: sizes.clone(), order: perm.iter().map(|k| set[*k]).collect() });
+            if !next_perm(&mut perm) {
+                break;
+            }
+        }
+    }
+}
+
 fn main() {
     let args = Args::parse();
     quiet_panics();
@@ -1584,11 +2430,25 @@ fn main() {
          datagrams) run through a real EdgeTunServerState + EdgeTunClientState after a WireGuard handshake \
          (windows of <= Q packets, overload Q+1..Q+3, late frames of older packets, delay/loss/copies, all \
          permutations of 2x2 frames on 1 slot and 3x2 frames on 2 slots); non-trivial = a packet handed to the \
-         tunnel after reassembly or a completely delivered multi-frame packet not handed over",
+         tunnel after reassembly or a completely delivered multi-frame packet not handed over. \
+         e2e multi cases = (MTU, packet sizes per client, delivery schedule (client, packet, datagram)) run through \
+         ONE real EdgeTunServerState and 2..3 EdgeTunClientStates (distinct identities / tunnel / network addresses, \
+         own handshake each) whose packets mostly coincide in stream offset (sequential, last datagram of one \
+         client's packet lost, datagram-by-datagram in turn, shuffled + copies + loss, per-client delay model, every \
+         client with Q..Q+2 packets in flight, all permutations of 2+2 and 3+2 datagrams incl. one dropped); \
+         non-trivial as for e2e",
     );
     let mut schedules: Vec<Schedule> = vec![];
     let mut e2e_cases: Vec<E2e> = vec![];
+    let mut multi_cases: Vec<Multi> = vec![];
     for l in read_corpus(&args.corpus) {
+        if l.trim_start().starts_with("e2em ") {
+            match parse_multi_line(&l) {
+                Some(c) => multi_cases.push(c),
+                None => rep.notes.push(format!("unparseable e2em corpus line: {}", &l[..l.len().min(60)])),
+            }
+            continue;
+        }
         if l.trim_start().starts_with("e2e ") {
             match parse_e2e_line(&l) {
                 Some(c) => e2e_cases.push(c),
@@ -1601,12 +2461,13 @@ fn main() {
             None => rep.notes.push(format!("unparseable corpus line: {}", &l[..l.len().min(40)])),
         }
     }
-    let n_corpus = schedules.len() + e2e_cases.len();
+    let n_corpus = schedules.len() + e2e_cases.len() + multi_cases.len();
     if let Some(p) = &args.replay {
         // replay file: corpus-format lines
         let txt = std::fs::read_to_string(p).expect("replay file");
-        schedules = txt.lines().filter(|l| !l.trim_start().starts_with("e2e ")).filter_map(parse_corpus_line).collect();
+        schedules = txt.lines().filter(|l| !l.trim_start().starts_with("e2e ") && !l.trim_start().starts_with("e2em ")).filter_map(parse_corpus_line).collect();
         e2e_cases = txt.lines().filter_map(parse_e2e_line).collect();
+        multi_cases = txt.lines().filter_map(parse_multi_line).collect();
     } else {
         let n = args.scale(800, 30000);
         for i in 0..n {
@@ -1706,6 +2567,27 @@ fn main() {
             gen_e2e_exhaustive(&mut rng, &[2, 2, 2], 3, &mut e2e_cases);
             gen_e2e_exhaustive(&mut rng, &[3, 2, 2], 2, &mut e2e_cases);
             gen_e2e_exhaustive(&mut rng, &[2, 2, 2, 2], 3, &mut e2e_cases);
+        }
+    }
+    // multi-client stream (generated last: the streams above are unchanged for a given seed)
+    let n_multi_corpus = multi_cases.len();
+    if args.replay.is_none() {
+        if std::env::var_os("HX_FRAG_E2E_NO_PROBE").is_none() {
+            // two clients, one 3-datagram packet each at the same stream offset: one after the other; the first
+            // one without its last datagram; datagram by datagram in turn
+            let probe = |kind: &str, seed: u64, order: &[(usize, usize, usize)]| Multi { kind: kind.into(), mtu: 1420, seed, sizes: vec![vec![3000], vec![3000]], order: order.to_vec() };
+            multi_cases.push(probe("e2e multi probe one after the other", rng.next(), &[(0, 0, 0), (0, 0, 1), (0, 0, 2), (1, 0, 0), (1, 0, 1), (1, 0, 2)]));
+            multi_cases.push(probe("e2e multi probe first client's last datagram lost", rng.next(), &[(0, 0, 0), (0, 0, 1), (1, 0, 0), (1, 0, 1), (1, 0, 2)]));
+            multi_cases.push(probe("e2e multi probe in turn", rng.next(), &[(0, 0, 0), (1, 0, 0), (0, 0, 1), (1, 0, 1), (0, 0, 2), (1, 0, 2)]));
+        }
+        for _ in 0..args.scale(220, 6000) {
+            multi_cases.push(gen_multi(&mut rng, server_q));
+        }
+        gen_multi_exhaustive(&mut rng, &[2, 2], true, &mut multi_cases);
+        gen_multi_exhaustive(&mut rng, &[3, 2], true, &mut multi_cases);
+        if args.thorough() {
+            gen_multi_exhaustive(&mut rng, &[3, 3], false, &mut multi_cases);
+            gen_multi_exhaustive(&mut rng, &[2, 2, 2], false, &mut multi_cases);
         }
     }
     rep.hit_n("corpus schedules", n_corpus as u64);
@@ -1819,6 +2701,58 @@ fn main() {
     }
     rep.hit_n("corpus e2e cases", n_e2e_corpus as u64);
     eprintln!("[hx_frag] e2e stream: {} cases in {:.1} s", e2e_cases.len(), e2e_t0.elapsed().as_secs_f64());
+    let multi_t0 = Instant::now();
+    let mut multi_samples = 0;
+    for (ci, c) in multi_cases.iter().enumerate() {
+        let with_model = c.kind != "e2e multi exhaustive" || ci % 3 == 0;
+        let o = if with_model { run_multi(c, &mut Some(&mut lean), server_q) } else { run_multi(c, &mut None, server_q) };
+        let canon = format!("e2em|{}|{:?}|{:?}", c.mtu, c.sizes, c.order);
+        let nontrivial = o.handed_over_reassembled > 0 || o.complete_not_handed_over > 0;
+        rep.case(&canon, nontrivial);
+        rep.traces += 1;
+        rep.hit(&format!("schedule {}", c.kind));
+        rep.hit(&format!("e2e multi clients {}", c.sizes.len()));
+        rep.hit_n("e2e multi datagrams delivered", o.labels.len() as u64);
+        rep.hit_n("e2e multi copies of a datagram delivered (dropped by the transport)", o.dup_dropped as u64);
+        rep.hit_n("e2e multi packets handed to the tunnel", o.handed_over as u64);
+        rep.hit_n("e2e multi packets handed to the tunnel after reassembly", o.handed_over_reassembled as u64);
+        rep.hit_n("e2e multi multi-frame packets completely delivered but not handed over", o.complete_not_handed_over as u64);
+        rep.hit_n("e2e multi pairs of multi-frame packets of different clients at the same stream offset, both (partly) delivered", o.coinciding as u64);
+        rep.hit_n("e2e multi liveness demanded (multi-frame)", o.claims as u64);
+        rep.hit_n("e2e multi liveness demanded only because older packets cannot reclaim", o.claims_older_only as u64);
+        rep.hit_n("e2e multi liveness demanded with datagrams of other clients in between", o.claims_other_client_interleaved as u64);
+        rep.hit_n("e2e multi liveness demanded with another client's multi-frame packet at the same stream offset", o.claims_other_client_same_offset as u64);
+        rep.hit_n("e2e multi liveness demanded (single-frame)", o.singles_claimed as u64);
+        rep.hit_n("e2e multi frames fed to the per-tunnel models", o.model_frames as u64);
+        if let Some(q) = server_q {
+            let multi_total: usize = o.frames_per_packet.iter().map(|v| v.iter().filter(|n| **n > 1).count()).sum();
+            if multi_total > q && o.frames_per_packet.iter().all(|v| v.iter().filter(|n| **n > 1).count() <= q) {
+                rep.hit("e2e multi case with more multi-frame packets than slots in total, at most Q per client");
+            }
+        }
+        if multi_samples < 1 && nontrivial && c.order.len() <= 10 && c.kind != "e2e multi exhaustive" && o.coinciding > 0 {
+            multi_samples += 1;
+            rep.samples.truncate(5);
+            rep.sample(multi_json(c, &o));
+        }
+        if let Some((k, im, mo)) = &o.disagree {
+            rep.disagree("e2e-glue-multi", json!({"case": multi_json(c, &o), "line": multi_line(c), "step": k}), im, mo);
+        }
+        let mut seen = std::collections::HashSet::new();
+        for (key, what) in &o.spec {
+            if !seen.insert(key.clone()) {
+                continue;
+            }
+            let small = shrink_multi(c, server_q, key);
+            let o2 = run_multi(&small, &mut None, server_q);
+            let what2 = o2.spec.iter().find(|(kk, _)| kk == key).map(|(_, w)| w.clone()).unwrap_or(what.clone());
+            let mut j = multi_json(&small, &o2);
+            j["found_in"] = json!(multi_line(c));
+            rep.spec_fail(key, &what2, j);
+        }
+    }
+    rep.hit_n("corpus e2e multi cases", n_multi_corpus as u64);
+    eprintln!("[hx_frag] e2e multi-client stream: {} cases in {:.1} s", multi_cases.len(), multi_t0.elapsed().as_secs_f64());
     if rep.samples.is_empty() {
         if let Some(s) = schedules.first() {
             rep.sample(sched_json(s));
